@@ -104,3 +104,122 @@ REG.spec('agent/resource_manager/base.py:ResourceManager._filter_nodes',
     },
     opts = dict(merge='scalars'),
     serves = ['C18'])
+
+
+# ------------------------------------------------------------------------------
+# node list construction
+#
+NodeTup = T.Tuple(T.Str, T.Int)
+RMInfoG = T.Rec('RMInfoG', gpus_per_node=T.Int, lfs_per_node=T.Int, mem_per_node=T.Int)
+
+REG.spec('agent/resource_manager/base.py:ResourceManager._get_node_list',
+    params   = dict(nodes=T.List(NodeTup), rm_info=RMInfoG),
+    returns  = NodeL,
+    locals   = dict(node_list=NodeL),
+    requires = ['forall(lambda i: implies(0 <= i < len(nodes), nodes[i][1] >= 0))',
+                'rm_info.gpus_per_node >= 0'],
+    raises   = {},
+    ensures  = [
+      ('one-entry-per-node', 'len(result) == len(nodes)'),
+      ('indices-are-positions', 'forall(lambda i: implies(0 <= i < len(result), result[i].index == i and result[i].name == nodes[i][0]))'),
+      ('unique-indices', 'distinct_nodes(result)'),
+      ('configured-cores-and-gpus-all-free',
+       'forall(lambda i: implies(0 <= i < len(result), len(result[i].cores) == nodes[i][1] and len(result[i].gpus) == rm_info.gpus_per_node and '
+       'forall(lambda c: implies(0 <= c < len(result[i].cores), result[i].cores[c] == FREE)) and '
+       'forall(lambda g: implies(0 <= g < len(result[i].gpus), result[i].gpus[g] == FREE))))'),
+      ('lfs-mem-from-config', 'forall(lambda i: implies(0 <= i < len(result), result[i].lfs == rm_info.lfs_per_node and result[i].mem == rm_info.mem_per_node))'),
+    ],
+    serves   = ['C18', 'C01'])
+
+REG.spec('agent/resource_manager/base.py:ResourceManager._get_cores_per_node',
+    params   = dict(nodes=T.List(NodeTup)),
+    returns  = T.Int,
+    raises   = {'ValueError': 'True'},
+    raises_weak = ['ValueError'],
+    ensures  = [('every-node-has-that-many-cores',
+                 'len(nodes) >= 1 and forall(lambda i: implies(0 <= i < len(nodes), nodes[i][1] == result))')],
+    serves   = ['C18'])
+
+
+# blocked cores / GPUs (core specialisation): a fragment of _init_from_scratch
+RMInfoN = T.Rec('RMInfoN', cores_per_node=T.Int, gpus_per_node=T.Int, node_list=NodeL)
+IntL = T.List(T.Int)
+REG.define('in_list(xs, v)', 'exists(lambda k: 0 <= k < len(xs) and xs[k] == v)')
+
+REG.spec('agent/resource_manager/base.py:ResourceManager._init_from_scratch#blocked',
+    fragment = 'if blocked_cores or blocked_gpus:',
+    params   = dict(rm_info=RMInfoN, blocked_cores=IntL, blocked_gpus=IntL),
+    requires = ['forall(lambda k: implies(0 <= k < len(blocked_cores), blocked_cores[k] >= 0))',
+                'forall(lambda k: implies(0 <= k < len(blocked_gpus), blocked_gpus[k] >= 0))'],
+    modifies = ['rm_info'],
+    raises   = {'AssertionError': 'True'},
+    raises_weak = ['AssertionError'],
+    frame_on_raise = False,
+    ensures  = [
+      ('same-nodes', 'same_skeleton(rm_info.node_list, old(rm_info.node_list)) and '
+                     'forall(lambda n: implies(0 <= n < len(rm_info.node_list), rm_info.node_list[n].lfs == old(rm_info.node_list)[n].lfs and rm_info.node_list[n].mem == old(rm_info.node_list)[n].mem))'),
+      ('blocked-cores-marked-unusable-on-every-node',
+       'forall(lambda n, k: implies(0 <= n < len(rm_info.node_list) and 0 <= k < len(blocked_cores), rm_info.node_list[n].cores[blocked_cores[k]] is None))'),
+      ('blocked-gpus-marked-unusable-on-every-node',
+       'forall(lambda n, k: implies(0 <= n < len(rm_info.node_list) and 0 <= k < len(blocked_gpus), rm_info.node_list[n].gpus[blocked_gpus[k]] is None))'),
+      ('other-cores-untouched',
+       'forall(lambda n, c: implies(0 <= n < len(rm_info.node_list) and 0 <= c < len(rm_info.node_list[n].cores) and not in_list(blocked_cores, c), '
+       'rm_info.node_list[n].cores[c] == old(rm_info.node_list)[n].cores[c]))'),
+      ('other-gpus-untouched',
+       'forall(lambda n, c: implies(0 <= n < len(rm_info.node_list) and 0 <= c < len(rm_info.node_list[n].gpus) and not in_list(blocked_gpus, c), '
+       'rm_info.node_list[n].gpus[c] == old(rm_info.node_list)[n].gpus[c]))'),
+      ('per-node-figures-reduced',
+       'rm_info.cores_per_node == old(rm_info.cores_per_node) - len(blocked_cores) and '
+       'rm_info.gpus_per_node == old(rm_info.gpus_per_node) - len(blocked_gpus)'),
+    ],
+    loops = {
+      '1': ['same_skeleton(rm_info.node_list, old(rm_info.node_list))',
+            'rm_info.cores_per_node == old(rm_info.cores_per_node) - len(blocked_cores) and rm_info.gpus_per_node == old(rm_info.gpus_per_node) - len(blocked_gpus)',
+            'forall(lambda n: implies(0 <= n < len(rm_info.node_list), rm_info.node_list[n].lfs == old(rm_info.node_list)[n].lfs and rm_info.node_list[n].mem == old(rm_info.node_list)[n].mem))',
+            'forall(lambda n: implies(i_node <= n < len(rm_info.node_list), rm_info.node_list[n] == old(rm_info.node_list)[n]))',
+            'forall(lambda n, k: implies(0 <= n < i_node and 0 <= k < len(blocked_cores), rm_info.node_list[n].cores[blocked_cores[k]] is None))',
+            'forall(lambda n, k: implies(0 <= n < i_node and 0 <= k < len(blocked_gpus), rm_info.node_list[n].gpus[blocked_gpus[k]] is None))',
+            'forall(lambda n, c: implies(0 <= n < i_node and 0 <= c < len(rm_info.node_list[n].cores) and not in_list(blocked_cores, c), rm_info.node_list[n].cores[c] == old(rm_info.node_list)[n].cores[c]))',
+            'forall(lambda n, c: implies(0 <= n < i_node and 0 <= c < len(rm_info.node_list[n].gpus) and not in_list(blocked_gpus, c), rm_info.node_list[n].gpus[c] == old(rm_info.node_list)[n].gpus[c]))'],
+      '1.1': ['len(rm_info.node_list) == len(old(rm_info.node_list))', '0 <= i_node < len(rm_info.node_list)',
+              'forall(lambda n: implies(0 <= n < len(rm_info.node_list) and n != i_node, rm_info.node_list[n] == at_head("1", rm_info.node_list)[n]))',
+              'rm_info.cores_per_node == at_head("1", rm_info.cores_per_node) and rm_info.gpus_per_node == at_head("1", rm_info.gpus_per_node)',
+              'node.index == old(rm_info.node_list)[i_node].index and node.name == old(rm_info.node_list)[i_node].name and '
+              'node.lfs == old(rm_info.node_list)[i_node].lfs and node.mem == old(rm_info.node_list)[i_node].mem and '
+              'node.gpus == old(rm_info.node_list)[i_node].gpus and len(node.cores) == len(old(rm_info.node_list)[i_node].cores)',
+              'forall(lambda k: implies(0 <= k < i_idx, node.cores[blocked_cores[k]] is None))',
+              'forall(lambda c: implies(0 <= c < len(node.cores) and not exists(lambda k: 0 <= k < i_idx and blocked_cores[k] == c), node.cores[c] == old(rm_info.node_list)[i_node].cores[c]))'],
+      '1.2': ['len(rm_info.node_list) == len(old(rm_info.node_list))', '0 <= i_node < len(rm_info.node_list)',
+              'forall(lambda n: implies(0 <= n < len(rm_info.node_list) and n != i_node, rm_info.node_list[n] == at_head("1", rm_info.node_list)[n]))',
+              'rm_info.cores_per_node == at_head("1", rm_info.cores_per_node) and rm_info.gpus_per_node == at_head("1", rm_info.gpus_per_node)',
+              'node.index == old(rm_info.node_list)[i_node].index and node.name == old(rm_info.node_list)[i_node].name and '
+              'node.lfs == old(rm_info.node_list)[i_node].lfs and node.mem == old(rm_info.node_list)[i_node].mem and '
+              'len(node.cores) == len(old(rm_info.node_list)[i_node].cores) and len(node.gpus) == len(old(rm_info.node_list)[i_node].gpus)',
+              'forall(lambda k: implies(0 <= k < len(blocked_cores), node.cores[blocked_cores[k]] is None))',
+              'forall(lambda c: implies(0 <= c < len(node.cores) and not in_list(blocked_cores, c), node.cores[c] == old(rm_info.node_list)[i_node].cores[c]))',
+              'forall(lambda k: implies(0 <= k < i_idx, node.gpus[blocked_gpus[k]] is None))',
+              'forall(lambda c: implies(0 <= c < len(node.gpus) and not exists(lambda k: 0 <= k < i_idx and blocked_gpus[k] == c), node.gpus[c] == old(rm_info.node_list)[i_node].gpus[c]))'],
+    },
+    opts   = dict(merge='scalars'),
+    serves = ['C18', 'C01'])
+
+
+# C01 / C18: the list the scheduler starts from satisfies the occupancy invariant
+REG.lemma('C01.init',
+    vars  = dict(nl0=NodeL, nl1=NodeL, nl2=NodeL, blocked_cores=IntL, blocked_gpus=IntL,
+                 gpn=T.Int, lfs=T.Int, mem=T.Int),
+    hyps  = ['lfs >= 0', 'mem >= 0', 'gpn >= 0',
+             # _get_node_list
+             'distinct_nodes(nl0)',
+             'forall(lambda i: implies(0 <= i < len(nl0), len(nl0[i].cores) >= 1 and len(nl0[i].gpus) == gpn and nl0[i].lfs == lfs and nl0[i].mem == mem and '
+             'forall(lambda c: implies(0 <= c < len(nl0[i].cores), nl0[i].cores[c] == FREE)) and '
+             'forall(lambda g: implies(0 <= g < len(nl0[i].gpus), nl0[i].gpus[g] == FREE))))',
+             # blocked marking
+             'same_skeleton(nl1, nl0)',
+             'forall(lambda n: implies(0 <= n < len(nl1), nl1[n].lfs == nl0[n].lfs and nl1[n].mem == nl0[n].mem))',
+             'forall(lambda n, c: implies(0 <= n < len(nl1) and 0 <= c < len(nl1[n].cores), nl1[n].cores[c] is None or nl1[n].cores[c] == nl0[n].cores[c]))',
+             'forall(lambda n, c: implies(0 <= n < len(nl1) and 0 <= c < len(nl1[n].gpus), nl1[n].gpus[c] is None or nl1[n].gpus[c] == nl0[n].gpus[c]))',
+             # _filter_nodes
+             'sublist_nodes(nl2, nl1)', 'distinct_nodes(nl2)'],
+    goals = [('scheduler-invariant-holds-initially', 'sched_inv(nl2, gpn)')],
+    serves = ['C01', 'C18'])
